@@ -42,12 +42,19 @@ type State struct {
 	pc    []*Term
 	ghost map[string]Value
 	gver  map[*Obj]int // ghost-field version per object (bumped when the object is havocked)
+	rw    map[*Term]*Term // established equations used as left-to-right rewrites of values (each is also in pc)
 }
 
 func (s *State) clone() *State {
 	n := &State{vars: make(map[*types.Var]*Obj, len(s.vars)), heap: make(map[*Obj]Value, len(s.heap)), ghost: map[string]Value{}, gver: map[*Obj]int{}}
 	for k, v := range s.gver {
 		n.gver[k] = v
+	}
+	if len(s.rw) > 0 {
+		n.rw = make(map[*Term]*Term, len(s.rw))
+		for k, v := range s.rw {
+			n.rw[k] = v
+		}
 	}
 	for k, v := range s.vars {
 		n.vars[k] = v
@@ -77,20 +84,72 @@ func (s *State) assume(t *Term) {
 			return
 		}
 	}
-	// an equation variable == constant is propagated through the whole state
+	// an equation variable == term is propagated through the values of the state
+	// (the equation itself stays in the path condition)
 	if t.Op == "=" {
 		a, b := t.Args[0], t.Args[1]
-		if b.Op == "var" && a.IsConst() {
+		if b.Op == "var" && (a.Op != "var" || freshBorn[b] > freshBorn[a]) {
 			a, b = b, a
 		}
-		if a.Op == "var" && b.IsConst() && a.Sort.K != KArr {
+		if a.Op == "var" && a.Sort.K != KArr && !occurs(a, b) {
 			s.substAll(map[*Term]*Term{a: b})
+		} else {
+			// be(array,...) == value without arrays: read the byte string as that value
+			if b.Op == "uf" && b.Name == "be" && !(a.Op == "uf" && a.Name == "be") {
+				a, b = b, a
+			}
+			if a.Op == "uf" && a.Name == "be" && !mentionsArray(b) && !occurs(a, b) && b.Op != "poly" && b.Op != "intconst" {
+				s.substAll(map[*Term]*Term{a: b})
+			}
 		}
 	}
 	s.pc = append(s.pc, t)
+	// implications whose antecedent has just become known release their consequent
+	for _, p := range s.pc {
+		if p.Op == "=>" && p.Args[0] == t {
+			s.assume(p.Args[1])
+		}
+	}
+}
+
+// norm applies the state's rewrites to a value.
+func (s *State) norm(v Value) Value {
+	if len(s.rw) == 0 {
+		return v
+	}
+	return substValue(v, s.rw)
+}
+
+func (s *State) normT(t *Term) *Term {
+	if len(s.rw) == 0 {
+		return t
+	}
+	return Subst(t, s.rw)
+}
+
+func (s *State) addRewrite(m map[*Term]*Term) {
+	if s.rw == nil {
+		s.rw = map[*Term]*Term{}
+	}
+	for k, v := range s.rw {
+		s.rw[k] = Subst(v, m)
+	}
+	for k, v := range m {
+		if k != v {
+			s.rw[k] = v
+		}
+	}
 }
 
 func (s *State) substAll(m map[*Term]*Term) {
+	if len(s.rw) > 0 {
+		m2 := make(map[*Term]*Term, len(m))
+		for k, v := range m {
+			m2[k] = Subst(v, s.rw)
+		}
+		m = m2
+	}
+	s.addRewrite(m)
 	// values only: the path condition keeps its original terms (and the equation), so that
 	// states that share a prefix of the path condition can still be merged
 	for o, v := range s.heap {
@@ -99,6 +158,34 @@ func (s *State) substAll(m map[*Term]*Term) {
 	for k, v := range s.ghost {
 		s.ghost[k] = substValue(v, m)
 	}
+}
+
+func mentionsArray(t *Term) bool {
+	seen := map[*Term]bool{}
+	var rec func(t *Term) bool
+	rec = func(t *Term) bool {
+		if seen[t] {
+			return false
+		}
+		seen[t] = true
+		if t.Sort.K == KArr {
+			return true
+		}
+		for _, a := range t.Args {
+			if rec(a) {
+				return true
+			}
+		}
+		if t.Op == "poly" {
+			for _, a := range t.Poly.atoms() {
+				if rec(a) {
+					return true
+				}
+			}
+		}
+		return false
+	}
+	return rec(t)
 }
 
 func substValue(v Value, m map[*Term]*Term) Value {
@@ -300,6 +387,7 @@ func (ex *exec) oblige(st *State, kind, label string, goal *Term, pos token.Pos)
 	if ex.nameN[base] > 1 {
 		name = fmt.Sprintf("%s#%d", base, ex.nameN[base])
 	}
+	goal = st.normT(goal)
 	o := &Oblig{Name: name, Func: fn, Kind: kind, Label: label, Goal: goal, Pos: ex.pos(pos)}
 	if goal == True {
 		o.Trivial = true
@@ -693,7 +781,7 @@ func (ex *exec) store(st *State, p *Ptr, nv Value, pos token.Pos) {
 	if !ok {
 		ex.fail(pos, "object %s not in heap", p.Obj)
 	}
-	st.heap[p.Obj] = ex.update(v, p.Path, nv, pos)
+	st.heap[p.Obj] = ex.update(v, p.Path, st.norm(nv), pos)
 }
 
 // copyValue: Go value semantics for assignment (arrays and structs are copied;
@@ -705,7 +793,7 @@ func copyValue(v Value) Value { return v }
 func (ex *exec) declare(st *State, v *types.Var, val Value) *Obj {
 	o := ex.newObj(v.Type(), v.Name(), true)
 	st.vars[v] = o
-	st.heap[o] = val
+	st.heap[o] = st.norm(val)
 	return o
 }
 
@@ -1253,12 +1341,63 @@ func (ex *exec) havocLoopTargets(st *State, body *ast.BlockStmt, post ast.Stmt, 
 				if tv, ok := info.Types[s.Fun]; ok && tv.IsType() {
 					return true
 				}
-				for _, a := range s.Args {
-					ex.havocIfRef(st, a, targets, addRoot)
+				// use the callee's assigns clause when it has one: only the arguments bound to
+				// parameters mentioned there can be written
+				var written map[string]bool
+				var fnObj *types.Func
+				switch f := unparen(s.Fun).(type) {
+				case *ast.Ident:
+					fnObj, _ = info.Uses[f].(*types.Func)
+				case *ast.SelectorExpr:
+					if sl, ok := info.Selections[f]; ok {
+						fnObj, _ = sl.Obj().(*types.Func)
+					} else {
+						fnObj, _ = info.Uses[f.Sel].(*types.Func)
+					}
 				}
-				if sel, ok := s.Fun.(*ast.SelectorExpr); ok {
-					if _, isSel := info.Selections[sel]; isSel {
-						ex.havocIfRef(st, sel.X, targets, addRoot)
+				if fnObj != nil {
+					key := funcKey(fnObj)
+					ct := ex.eng.contracts[key]
+					if ex.mode == ModeInt {
+						if c2 := ex.eng.contracts[key+"#int"]; c2 != nil {
+							ct = c2
+						}
+					}
+					if ct != nil && ct.HasAssign {
+						written = map[string]bool{}
+						for _, a := range ct.Assigns {
+							ast.Inspect(a, func(n ast.Node) bool {
+								if id, ok := n.(*ast.Ident); ok {
+									written[id.Name] = true
+									if gd, ok := ex.eng.ghosts[id.Name]; ok && gd.Var {
+										st.ghost[id.Name] = Fresh("ghost."+id.Name, gd.Sort)
+									}
+								}
+								return true
+							})
+						}
+					}
+				}
+				if written == nil {
+					for _, a := range s.Args {
+						ex.havocIfRef(st, a, targets, addRoot)
+					}
+					if sel, ok := s.Fun.(*ast.SelectorExpr); ok {
+						if _, isSel := info.Selections[sel]; isSel {
+							ex.havocIfRef(st, sel.X, targets, addRoot)
+						}
+					}
+				} else {
+					sig := fnObj.Type().(*types.Signature)
+					for i, a := range s.Args {
+						if i < sig.Params().Len() && written[sig.Params().At(i).Name()] {
+							ex.havocIfRef(st, a, targets, addRoot)
+						}
+					}
+					if sel, ok := s.Fun.(*ast.SelectorExpr); ok && sig.Recv() != nil {
+						if _, isSel := info.Selections[sel]; isSel && (written[sig.Recv().Name()] || written["recv"]) {
+							ex.havocIfRef(st, sel.X, targets, addRoot)
+						}
 					}
 				}
 			case *ast.FuncLit:
@@ -1607,6 +1746,14 @@ func (ex *exec) mergeWith(a, b *State, ca *Term, pc []*Term) *State {
 	for k, v := range b.gver {
 		if v > n.gver[k] {
 			n.gver[k] = v
+		}
+	}
+	for k, v := range a.rw {
+		if b.rw[k] == v {
+			if n.rw == nil {
+				n.rw = map[*Term]*Term{}
+			}
+			n.rw[k] = v
 		}
 	}
 	for v, o := range a.vars {
